@@ -134,7 +134,10 @@ def _scenario(rng):
         return dict(family='scenario', kind=k, n0=rng.randint(1, 3), n1=rng.randint(1, 3),
                     attrs=rng.sample(['scale_factor', 'add_offset', 'valid_min', 'units', 'missing_value'], rng.randint(1, 4)),
                     masked=rng.random() < 0.8,
-                    ops=[rng.choice(['evalexpr', 'evalname', 'reorder', 'binop', 'slice_dim', 'copy', 'mask', 'apply'])
+                    ops=[rng.choice(['evalexpr', 'evalname', 'reorder', 'binop', 'slice_dim', 'copy', 'mask', 'apply',
+                                     # results of eval / pncexpr that are plain arrays or reduced (either a well-formed file or an
+                                     # error), arithmetic on a masked rank-0 variable, a copy under a longer dimension tuple
+                                     'evalreduce', 'pncexprreduce', 'evalscalar', 'copyvardims'])
                          for _ in range(rng.randint(1, 3))])
     ops = [rng.choice(['slice_t', 'slice_l', 'apply_l', 'copy', 'subset']) for _ in range(rng.randint(1, 3))]
     if rng.random() < 0.3:
@@ -260,9 +263,30 @@ def _impl_scenario(c):
                     setattr(P, a, {'scale_factor': 0.5, 'add_offset': 10., 'valid_min': 0., 'units': 'K', 'missing_value': -999.}[a])
                 R = f.createVariable('R', 'f', ('b',))
                 R[...] = np.arange(c['n1'])
+                S = f.createVariable('S', 'f', (), fill_value=-999.)
+                S[...] = 4.
                 rec(f, 'source')
                 for op in c['ops']:
-                    if op == 'evalexpr':
+                    if op in ('evalreduce', 'pncexprreduce'):
+                        from PseudoNetCDF.core._functions import pncexpr
+                        if 'P' not in f.variables or len(f.variables['P'].dimensions) < 2:
+                            continue
+                        expr = ['Q2 = np.asarray(P).sum(0)', 'Q2 = P.mean(1)', 'Q2 = np.ma.masked_greater(P[:], 3).max(0)',
+                                'Q2 = P[0]'][(c['n0'] + c['n1'] + len(c['ops'])) % 4]
+                        try:
+                            f = f.eval(expr, inplace=False, copyall=True) if op == 'evalreduce' else pncexpr(expr, f)
+                        except ValueError:
+                            continue        # refusing a result that does not fit its dimensions is fine
+                    elif op == 'evalscalar':
+                        if 'S' not in f.variables:
+                            continue
+                        f = f.eval('H = S / 2', inplace=False, copyall=True)
+                    elif op == 'copyvardims':
+                        if 'R' not in f.variables or f.variables['R'].dimensions != ('b',) or 'a' not in f.dimensions:
+                            continue
+                        f = f.copy()
+                        f.copyVariable(f.variables['R'], key='R2', dimensions=('a', 'b'))
+                    elif op == 'evalexpr':
                         f = f.eval('Q = P * 2', inplace=False, copyall=True)
                     elif op == 'evalname':
                         f = f.eval('Q = P', inplace=False, copyall=True)
